@@ -26,8 +26,14 @@ RULE = ("6-9 statements per program: result(tag, expr) / subscript assignment / 
         "distinct = distinct statement shapes (AST with literals erased)")
 FLOORS = {"statements_compared": 100, "reporter_events": 300}
 
-HEADER = '''from guppylang import guppy
+HEADER = '''from collections.abc import Callable
+from guppylang import guppy
 from guppylang.std.builtins import result, array, owned, panic
+
+@guppy.struct
+class PT:
+    a: int
+    b: int
 
 @guppy
 def t(k: int, v: int) -> int:
@@ -48,6 +54,18 @@ def tb(k: int, v: bool) -> bool:
 def g2(a: int, b: int) -> int:
     result("g", a * 100 + b)
     return a - b
+
+@guppy
+def h2(a: int, b: int) -> int:
+    result("h", a * 100 + b)
+    return a + b
+
+@guppy
+def pick(k: int, v: int) -> Callable[[int, int], int]:
+    result("e", k)
+    if v > 0:
+        return g2
+    return h2
 
 @guppy
 def g3(a: int, b: float, c: bool) -> int:
@@ -88,6 +106,14 @@ class G:
                 return {"int": str(r.randint(0, 9)), "float": "0.5", "bool": "True"}[ty]
             return self.rep(ty)
         c = r.randrange(12)
+        if ty == "int" and r.random() < 0.12:
+            # calls through a function *value* whose callee expression reports too, and struct
+            # construction followed by a projection
+            if r.random() < 0.6:
+                self.k += 1
+                return (f"pick({self.k}, {r.randint(0, 1)})({self.expr('int', d - 1)}, "
+                        f"{self.expr('int', d - 1)})")
+            return f"PT({self.expr('int', d - 1)}, {self.expr('int', d - 1)}).{r.choice('ab')}"
         if ty == "int":
             if c < 3:
                 op = r.choice(["+", "-", "*", "&", "|", "^"])
@@ -168,16 +194,35 @@ class G:
         if c == 7:
             return f'result("v{n}", xs[{self.expr("int", 1)} % 3])'
         if c == 8:
-            return f"y{n} = g2({self.expr('int', d)}, {self.expr('int', d)})"
+            f = r.random()
+            if f < 0.4:
+                return f"y{n} = g2({self.expr('int', d)}, {self.expr('int', d)})"
+            if f < 0.6:
+                return f"acc {r.choice(['+', '-', '*'])}= {self.expr('int', d)}"
+            if f < 0.8:
+                return f"acc, y{n} = {self.expr('int', d - 1)}, {self.expr('int', d - 1)}"
+            self.k += 1
+            return (f"fn{n} = pick({self.k}, {r.randint(0, 1)})\n"
+                    f"    acc = fn{n}({self.expr('int', d - 1)}, {self.expr('int', d - 1)})")
         return f'result("v{n}", g3({self.expr("int", d - 1)}, {self.expr("float", d - 1)}, {self.expr("bool", d - 1)}))'
 
 
 HOISTED = (ast.IfExp, ast.BoolOp, ast.NamedExpr)
 
 
+def _norm(src: str) -> str:
+    return "\n".join(l.strip() for l in src.split("\n") if l.strip())
+
+
 def stmt_features(src: str) -> set[str]:
-    """Features of one statement relevant to known deviations."""
-    node = ast.parse(src).body[0]
+    """Features of one generated statement (possibly two source lines) relevant to known deviations."""
+    feats: set[str] = set()
+    for node in ast.parse(_norm(src)).body:
+        feats |= _features_one(node)
+    return feats
+
+
+def _features_one(node) -> set[str]:
     feats: set[str] = set()
     if isinstance(node, ast.AugAssign) and isinstance(node.target, ast.Subscript):
         feats.add("augassign-subscript")
@@ -194,7 +239,16 @@ def stmt_features(src: str) -> set[str]:
         if isinstance(n, ast.Call) and isinstance(n.func, ast.Name) and n.func.id in ("t", "tf", "tb"):
             order.append(("effect", n))
             return
-        if isinstance(n, ast.Call) and isinstance(n.func, ast.Name) and n.func.id in ("g2", "g3"):
+        if isinstance(n, ast.Call) and isinstance(n.func, ast.Name) and n.func.id in ("g2", "g3", "h2"):
+            for a in n.args:
+                walk(a)
+            order.append(("effect", n))
+            return
+        if isinstance(n, ast.Call) and isinstance(n.func, ast.Name) and n.func.id == "pick":
+            order.append(("effect", n))
+            return
+        if isinstance(n, ast.Call) and isinstance(n.func, ast.Call):
+            walk(n.func)
             for a in n.args:
                 walk(a)
             order.append(("effect", n))
@@ -214,7 +268,7 @@ def stmt_features(src: str) -> set[str]:
     # operands swapped, which also swaps their evaluation order
     def ety(n):
         if isinstance(n, ast.Call) and isinstance(n.func, ast.Name):
-            return {"t": "int", "tf": "float", "tb": "bool", "g2": "int", "g3": "int",
+            return {"t": "int", "tf": "float", "tb": "bool", "g2": "int", "g3": "int", "h2": "int",
                     "int": "int", "float": "float"}.get(n.func.id, "int")
         if isinstance(n, ast.Constant):
             return type(n.value).__name__
@@ -233,7 +287,7 @@ def stmt_features(src: str) -> set[str]:
 
     def has_effect(n):
         return any(isinstance(c, ast.Call) and isinstance(c.func, ast.Name)
-                   and c.func.id in ("t", "tf", "tb", "g2", "g3") for c in ast.walk(n))
+                   and c.func.id in ("t", "tf", "tb", "g2", "g3", "h2", "pick") for c in ast.walk(n))
 
     for n in ast.walk(node):
         if isinstance(n, ast.Compare):
@@ -254,11 +308,12 @@ def stmt_features(src: str) -> set[str]:
 
 
 def shape_of(src: str) -> str:
-    node = ast.parse(src).body[0]
+    node = ast.parse(_norm(src))
     for n in ast.walk(node):
         if isinstance(n, ast.Constant):
             n.value = 0 if not isinstance(n.value, str) else "s"
-        if isinstance(n, ast.Name) and (n.id.startswith("w") or n.id.startswith("y")):
+        if isinstance(n, ast.Name) and (n.id.startswith("w") or n.id.startswith("y")
+                                        or n.id.startswith("fn")):
             n.id = "v"
     return hashlib.sha1(ast.dump(node).encode()).hexdigest()[:16]
 
@@ -303,7 +358,7 @@ def judge_text(ctx, text, stmts):
     got = [(t, opy.norm_value(v)) for t, v in out.stream()]
     es, gs = split_segments(exp), split_segments(got)
     counters = {"statements_compared": 0,
-                "reporter_events": sum(1 for t, _ in exp if t in ("e", "g"))}
+                "reporter_events": sum(1 for t, _ in exp if t in ("e", "g", "h"))}
     viols = []
     shapes = []
     for i, st in enumerate(stmts):
@@ -330,7 +385,7 @@ def judge_text(ctx, text, stmts):
         else:
             mech = "C05:event-order-or-count"
         viols.append({"mech": mech, "witness": {"text": text, "statement": st, "expected": e_seg,
-                                                 "observed": g_seg}})
+                                                 "observed": g_seg, "stmts": stmts}})
         counters["statements_with_deviation"] = counters.get("statements_with_deviation", 0) + 1
         if mech in ("C05:statement-missing-or-extra", "C05:event-order-or-count"):
             break  # unknown mismatch: later statements may be knock-on effects
@@ -359,20 +414,31 @@ def judge_text(ctx, text, stmts):
 def build(rng):
     g = G(rng)
     n = rng.randint(6, 9)
-    stmts = [g.statement(i) for i in range(n)]
+    stmts = []
+    for i in range(n):
+        st = g.statement(i)
+        # statements showing one of the known evaluation-order deviations (known_findings.json)
+        # would attribute *any* deviation to that finding; keep a quarter of them as probes of the
+        # findings and regenerate the rest, so that most statements are judged strictly
+        for _ in range(6):
+            if not stmt_features(st) or rng.random() < 0.25:
+                break
+            st = g.statement(i)
+        stmts.append(st)
     if rng.random() < 0.25:
         # panic in a checked argument slot of a random statement
         i = rng.randrange(n)
         g.k += 1
         stmts[i] = f'result("v{i}", t({g.k}, 1) + t({g.k + 1}, panic("boom{i}")) + t({g.k + 2}, 2))'
         g.k += 2
-    lines = ["@guppy", "def main() -> None:", "    xs = array(10, 20, 30)"]
+    lines = ["@guppy", "def main() -> None:", "    xs = array(10, 20, 30)", "    acc = 1"]
     for i, s in enumerate(stmts):
         lines.append(f'    result("s", {i})')
         lines.append("    " + s)
     lines.append(f'    result("s", {n})')
     lines.append('    result("xs", xs)')
-    stmts.append('result("xs", xs)')
+    lines.append('    result("acc", acc)')
+    stmts.append('result("xs", xs)\n    result("acc", acc)')
     return HEADER + "\n".join(lines) + "\n", stmts
 
 
@@ -386,6 +452,8 @@ def run_case(ctx, rng, idx, params, tier):
 
 def replay(ctx, w):
     text = w["text"]
+    if w.get("stmts"):
+        return judge_text(ctx, text, w["stmts"])
     body = text.split("def main() -> None:\n")[1].split("\n")
     stmts = [l.strip() for l in body if l.strip() and not l.strip().startswith('result("s"')
              and not l.strip().startswith("xs = array(")]
